@@ -145,6 +145,12 @@ func (di *docValueReader) loadDvChunk(chunkNumber uint64, s *Segment) error {
 	destChunkDataLoc += start
 	curChunkEnd += end
 
+	// nothing is loaded while the header below is being replaced: a read
+	// error must not leave the new header under the old chunk number
+	di.curChunkNum = math.MaxUint64
+	di.curChunkData = nil
+	di.uncompressed = di.uncompressed[:0]
+
 	// read the number of docs reside in the chunk
 	numDocsData, err := s.data.Read(int(destChunkDataLoc), int(destChunkDataLoc+binary.MaxVarintLen64))
 	if err != nil {
